@@ -30,6 +30,7 @@ CONSTANTS ValChars,   \* ordinary characters offered, e.g. {"1", "0", "a", "."}
           Digits,     \* which of them are digits
           MaxLen,     \* maximal length of the string
           MaxSpaces,  \* at most this many spaces per string
+          SpaceMaxLen,\* strings that contain a space are enumerated up to this length only
           AllParams   \* TRUE: every parameter point for every string; FALSE: one point per string, chosen
                       \* by its length and marble count (two - with and without raise_stopped - when something
                       \* follows a terminal)
@@ -50,7 +51,7 @@ Flushed   == IF cur = <<>> THEN msgs ELSE Append(msgs, Msg(curF, "N", cur))
 RejFlush  == reject \/ (cur # <<>> /\ stopped)        \* a value declared after a terminal
 \* a string is not extended once a marble after a terminal has been closed: its continuations are
 \* rejected for the same reason and parsed by the same rules (that only prunes the enumeration)
-Room      == Len(str) < MaxLen /\ ~reject
+Room      == Len(str) < (IF nsp > 0 THEN SpaceMaxLen ELSE MaxLen) /\ ~reject
 Consume(c) == str' = Append(str, c)
 
 ElemChar == \E c \in ValChars :
@@ -89,7 +90,7 @@ Term == \E c \in {"|", "#"} :
     /\ expect' = (IF inGroup THEN "sep" ELSE "any")
     /\ UNCHANGED <<inGroup, gFrame, curF, nsp>>
 
-Space == /\ Room /\ nsp < MaxSpaces /\ Consume(" ")
+Space == /\ Room /\ nsp < MaxSpaces /\ Len(str) < SpaceMaxLen /\ Consume(" ")
          /\ lastSp' = TRUE /\ nsp' = nsp + 1
          /\ UNCHANGED <<frame, inGroup, gFrame, cur, curF, expect, stopped, reject, msgs>>
 
